@@ -213,3 +213,14 @@ func (v *VerifLog) IsUpToDate(index, term uint64) bool {
 func (v *VerifLog) UnstableOffset() uint64           { return v.l.unstable.offset }
 func (v *VerifLog) UnstableOffsetInProgress() uint64 { return v.l.unstable.offsetInProgress }
 func (v *VerifLog) UnstableLen() int                 { return len(v.l.unstable.entries) }
+
+// VerifRTODraw, when set, replaces the crypto/rand election-timeout draw so
+// that executions are a function of the harness' seed (the only randomness in
+// the library). It must return a value in [electionTimeout, 2*electionTimeout-1].
+var VerifRTODraw func(id uint64, electionTimeout int) int
+
+func verifAfterRTOReset(r *raft) {
+	if VerifRTODraw != nil {
+		r.randomizedElectionTimeout = VerifRTODraw(r.id, r.electionTimeout)
+	}
+}
